@@ -36,6 +36,8 @@ def jobs(tier):
         add(k=1, L=2, fast=True, table=True, vt=0, max_steps=4)
         add(k=1, L=2, fast=False, table=False, vt=2, max_steps=3)
         add(k=1, L=2, fast=True, table=False, vt=3, max_steps=3)
+        add(k=1, L=2, fast=True, table=False, vt=1, max_steps=3)
+        add(k=1, L=1, fast=False, table=False, vt=1, max_steps=2, real_arith=True)
         add(k=1, L=2, fast=False, table=False, vt=0, max_steps=4, real_arith=True)
         add(k=1, L=0, fast=False, table=False, vt=2, max_steps=2, real_arith=True)
         add(k=1, L=1, fast=False, table=False, vt=0, max_steps=3, real_arith=True)
@@ -76,10 +78,7 @@ def jobs(tier):
         add(k=1, L=4, fast=False, table=False, vt=0, max_steps=6)
         add(k=2, L=3, fast=False, table=False, vt=0, max_steps=4)
         add(k=2, L=4, fast=True, table=False, vt=0, max_steps=4)
-        add(k=1, L=5, fast=True, table=False, vt=0, max_steps=7)
-        add(k=1, L=3, fast=False, table=False, vt=3, max_steps=5)
-        add(k=1, L=5, fast=False, table=False, vt=0, max_steps=7)
-        add(k=2, L=4, fast=False, table=False, vt=0, max_steps=5)
+        # (k=1 L=5, k=1 L=3 with a 3-symbol check and k=2 L=4 in normal mode were measured at > 4 core-hours each: left out)
     return J
 
 
